@@ -711,7 +711,6 @@ class DataIndex(BaseDataIndex, MutableMapping[DataIndexKey, DataIndexEntry]):
             return
 
         entry.loaded = True
-        del self._trie[key]
         self._trie[key] = entry
         self._trie.commit()
 
